@@ -22,6 +22,16 @@ from . import common, tlc
 from .common import Ctx, Outcome, Violation
 
 TARGET = {"M": ("/m/{id}", "post", "opM"), "O": ("/m/{id}", "get", "opO"), "Z": ("/z", "post", "opZ")}
+W_PATH = {"/f/~1": "/f//", "/f/~10": "/f//0"}  # what decoding "~0" before "~1" turns Z's pointer token into
+
+
+def target(d: dict, t: str) -> tuple:
+    """(path, method, operationId) of operation t in document d."""
+    if t == "Z":
+        return (d.get("zpath", "/z"), "post", "opZ")
+    if t == "W":
+        return (W_PATH[d["zpath"]], "post", "opW")
+    return TARGET[t]
 KEYS = {"K1": ("p", "query"), "K2": ("p", "header"), "K3": ("q", "query")}
 # logical file -> where its entries live when everything is in one document
 SINGLE_PREFIX = {"shared/params": "components/parameters", "shared/more": "components/parameters",
@@ -119,9 +129,17 @@ class _Builder:
             m["security"] = []
         m["responses"] = {"200": {"description": "ok"}, "404": {"description": "nf"}, "default": {"description": "x"}}
         o = {"operationId": "opO", "responses": {"200": {"description": "ok"}}}
+        collide = d.get("collide", False)
+        lim = lambda r, g: pdef("lim", "query", r, g)
+        if collide:
+            # the SAME pointer text in two documents (multi-file); one document cannot hold two definitions under one pointer
+            own_doc = d["pathRef"] and self.lay == "multi"
+            shared.append({"$ref": "#/components/parameters/" + ("Lim" if own_doc else "Lim_item")})
         item = {"parameters": shared, "post": m, "get": o}
         # Z
         zparams: list = [pdef("q", "query", False, 4)]
+        if collide:
+            zparams.append({"$ref": "#/components/parameters/Lim"})
         if d["bad"] == "paramref":
             zparams = [{"$ref": self.ref("api", "shared/params", "Missing")}]
         elif d["bad"] == "noin":
@@ -131,14 +149,26 @@ class _Builder:
             z_item = {"$ref": self.ref("api", "items/missing", None)}
         api = self.files["api"]
         root: dict = {"openapi": "3.0.2", "info": {"title": "t", "version": "1"}}
+        zpath = d.get("zpath", "/z")
         if d["pathRef"]:
             if self.lay == "multi":
-                self.files["items/m"] = item
+                if collide:  # the external document: the path item plus ITS OWN components under the same pointer text
+                    self.files["items/m"] = {"item": item, "components": {"parameters": {"Lim": lim(d["orient"] == "pT", 13)}}}
+                else:
+                    self.files["items/m"] = item
             else:
                 api.setdefault("x-items", {})["m"] = item
-            paths = {"/m/{id}": {"$ref": self.ref("api", "items/m", None)}, "/z": z_item}
+            paths = {"/m/{id}": {"$ref": self.ref("api", "items/m", "item" if collide and self.lay == "multi" else None)}, zpath: z_item}
         else:
-            paths = {"/m/{id}": item, "/z": z_item}
+            paths = {"/m/{id}": item, zpath: z_item}
+        if zpath in W_PATH:
+            paths[W_PATH[zpath]] = {"post": {"operationId": "opW", "parameters": [pdef("w", "query", False, 11)],
+                                             "responses": {"200": {"description": "ok"}}}}
+        if collide:
+            comp = api.setdefault("components", {}).setdefault("parameters", {})
+            comp["Lim"] = lim(False, 12)
+            if not (d["pathRef"] and self.lay == "multi"):
+                comp["Lim_item"] = lim(d["orient"] == "pT", 13)
         root["paths"] = paths
         if d["sec"] != "none":
             scheme = {"qry": {"type": "apiKey", "name": "k", "in": "query"},
@@ -225,7 +255,7 @@ def ensure_files(d: dict, ser: str, lay: str, base: str | None = None) -> str:
     if not _root:
         _root.append(base or tempfile.mkdtemp(prefix="verif-c08-docs-", dir=os.environ.get("VERIF_C08_DIR") or None))
     ext = "json" if ser == "json" else "yaml"
-    top = os.path.join(_root[0], "%d" % os.getpid(), "%s.%s.%s" % key)
+    top = os.path.join(_root[0], "%d" % os.getpid(), "%s.%s.%s" % (re.sub(r"[^A-Za-z0-9=.-]", "_", key[0].replace("~", "T")), ser, lay))
     files = _Builder(d, lay, ext).build()
     for name, content in files.items():
         path = os.path.join(top, name + "." + ext)
@@ -295,11 +325,11 @@ def _project_safe(op) -> dict:
         return dict(_err(exc), path="", exc="projection:" + type(exc).__name__)
 
 
-def access(schema, a: dict) -> list[dict]:
+def access(schema, a: dict, d: dict | None = None) -> list[dict]:
     from schemathesis.core.result import Ok
 
     k = a["k"]
-    path, method, op_id = TARGET[a["t"]]
+    path, method, op_id = target(d or {}, a["t"])
     try:
         if k == "iter":
             out = []
@@ -322,7 +352,7 @@ def observe(d: dict, ser: str, lay: str, h: list[dict]) -> list[dict]:
     depth0 = len(schema.resolver._scopes_stack)
     obs = []
     for a in h:
-        items = access(schema, a)
+        items = access(schema, a, d)
         obs.append({"items": items, "depth": len(schema.resolver._scopes_stack) - depth0})
     return obs
 
@@ -413,8 +443,8 @@ def _param_diff(got: list[dict], exp: set, d: dict, t: str, view: str) -> list[s
     return why or ["param:differs"]
 
 
-def _about(it: dict, t: str) -> bool:
-    path, method, _ = TARGET[t]
+def _about(it: dict, t: str, d: dict) -> bool:
+    path, method, _ = target(d, t)
     return it["path"] == path and it["method"] in (method, "")
 
 
@@ -430,17 +460,17 @@ def judge_access(d: dict, a: dict, judged: bool, exp: dict, o: dict) -> list[str
         if len(items) != 1:
             return why + ["outcome:lookup-arity"]
         return why + _match(items[0], exp[a["t"]], d, a["t"], False)
-    for t in ("M", "O", "Z"):
-        about = [it for it in items if _about(it, t)]
+    for t in sorted(exp):
+        about = [it for it in items if _about(it, t, d)]
         if not about:
             why.append("outcome:dropped-operation" if exp[t]["ok"] else
-                       "outcome:error-not-reported" if any(it["ok"] and it["path"] == TARGET[t][0] for it in items)
+                       "outcome:error-not-reported" if any(it["ok"] and it["path"] == target(d, t)[0] for it in items)
                        else "outcome:error-without-path")
         elif len(about) > 1:
             why.append("outcome:duplicate-outcome")
         else:
             why.extend(_match(about[0], exp[t], d, t, True))
-    if any(not any(_about(it, t) for t in ("M", "O", "Z")) for it in items) and "outcome:error-without-path" not in why:
+    if any(not any(_about(it, t, d) for t in exp) for it in items) and "outcome:error-without-path" not in why:
         why.append("outcome:stray-outcome")
     return why
 
@@ -457,7 +487,7 @@ def case_failures(case: dict, obs: list[dict]) -> dict[int, list[str]]:
 
 ROUTE = {"iter": "iterate", "path": "path-method", "id": "operationId", "ref": "reference"}
 BASE = {"plK1": True, "plK2": False, "olK1": True, "olK2": False, "olK3": False, "orient": "pT", "pdepth": 1, "odepth": 0,
-        "pathRef": False, "body": "two", "rec": False, "cross": "none", "sec": "hdr", "bad": "none"}
+        "pathRef": False, "body": "two", "rec": False, "cross": "none", "zpath": "/z", "collide": False, "sec": "hdr", "bad": "none"}
 
 
 def _rel(a: tuple, b: tuple) -> str:
@@ -466,7 +496,7 @@ def _rel(a: tuple, b: tuple) -> str:
         return "iterate"
     if a[0] == "iter":
         return ROUTE[b[0]]
-    rel = "same" if a[1] == b[1] else "sibling" if TARGET[a[1]][0] == TARGET[b[1]][0] else "other-path"
+    rel = "same" if a[1] == b[1] else "sibling" if {a[1], b[1]} <= {"M", "O"} else "other-path"
     return "%s(%s)" % (ROUTE[b[0]], rel)
 
 
@@ -682,7 +712,7 @@ def selftest(ctx: Ctx) -> bool:
 
     _root.append(ctx.path("docs"))
     d = {"plK1": True, "plK2": False, "olK1": True, "olK2": False, "olK3": False, "orient": "pT", "pdepth": 1, "odepth": 0,
-         "pathRef": False, "body": "two", "rec": False, "cross": "none", "sec": "hdr", "bad": "paramref"}
+         "pathRef": False, "body": "two", "rec": False, "cross": "none", "zpath": "/z", "collide": False, "sec": "hdr", "bad": "paramref"}
     main = ensure_files(d, "yaml", "single")
     std = yaml.safe_load(open(main))
     post = std["paths"]["/m/{id}"]["post"]
